@@ -28,8 +28,11 @@ TraceTables ==
     /\ IsEvent("Tables")
     /\ TablesOK(Traces[tid].hdr.doc, Traces[tid].hdr.fmt, Ev.tables, Dev)
 
+\* typed data row of a generated sheet (second row of the sheet's table)
+TraceTyped == IsEvent("Typed") /\ TypedRowOK(Ev.kinds, Ev.row)
+
 TraceInit == tid \in 1..Len(Traces) /\ l = 1
-TraceNext == TraceText \/ TraceUnits \/ TraceTables
+TraceNext == TraceText \/ TraceUnits \/ TraceTables \/ TraceTyped
 TraceSpec == TraceInit /\ [][TraceNext]_vars
 TraceAccept ==
     /\ (l = Len(Traces[tid].ev) + 1) => PrintT(<<"ACCEPT", tid>>)
